@@ -642,6 +642,20 @@ def run_check(chk, tier, replay=None):
         # sanitizer / crash notes not already a diff are diffs by construction (model never says CRASH)
         chk.extra(ctx)
 
+    # thorough tier: the compiled theorems (and everything they depend on) are re-checked by the independent checker coqchk,
+    # which also lists every axiom the loaded libraries rely on
+    if tier == "thorough" and coqres["ok"] and replay is None and "coqchk" not in ctx.get("coverage_extra", {}):
+        mods = ["Nitro." + v[:-2].replace("/", ".") for v in chk.vfiles if not v.startswith("Extract/")]
+        tchk = time.time()
+        with Lock("coq"):
+            rcc, outc = sh(["coqchk", "-silent", "-o", "-Q", "theories", "Nitro"] + mods, cwd=COQ, timeout=3600)
+        okc = rcc == 0 and "* Axioms: <none>" in outc
+        ctx.setdefault("coverage_extra", {})["coqchk"] = dict(modules=mods, ok=okc, seconds=round(time.time() - tchk, 1),
+                                                              summary=" ".join(outc[-600:].split()))
+        if not okc:
+            viol_lines.append((" no-failing-input-found", dict(property=chk.prop, kind="proof",
+                               broken="coqchk rejects the compiled theorems or reports axioms", log=outc[-4000:])))
+
     if build_err is not None:
         payload = dict(property=chk.prop, kind="build", broken=build_err[0], output=build_err[1][-6000:],
                        note="the tie between model and code cannot be established on this tree")
